@@ -23,6 +23,7 @@ def handleLine (line : String) : String :=
     | "graphseq" => GraphDrv.handle rest
     | "topo" => TopoDrv.handle rest
     | "parse" => ParseDrv.handleParse rest
+    | "parsec" => ParseDrv.handleParseCustom rest
     | "roundtrip" => ParseDrv.handleRoundtrip rest
     | "fsweep" => ParseDrv.handleFsweep rest
     | "loop" => LoopDrv.handle rest
